@@ -77,7 +77,7 @@ class Sched:
             self.lock.notify_all()
 
     # ------------------------------------------------------------------ called by the scheduler (main thread)
-    def settle(self, managed, timeout=5.0):
+    def settle(self, managed, timeout=30.0):      # (milliseconds in practice; generous because checks run under heavy machine load)
         """wait until every managed thread is at an announcement, blocked in wait(), or done"""
         t0 = _realtime.time()
         with self.lock:
@@ -109,7 +109,7 @@ class Sched:
             t0 = _realtime.time()
             while self.granted == nm:
                 self.lock.wait(0.05)
-                if _realtime.time() - t0 > 5.0:
+                if _realtime.time() - t0 > 30.0:
                     raise Deadlock(f"{nm} did not take its grant")
 
     def release_all(self):
